@@ -158,7 +158,7 @@ NEWDIMS = ["p", "q", "r", "s"]
 def _construct():
     def gen(w, rng):
         spec = V.gen_array_spec(rng, w.cfg)
-        forms = [0] + rng.sample([1, 2, 3, 4, 5, 6, 7, 8, 9, 10, 11, 12], 1)
+        forms = [0] + rng.sample([1, 2, 3, 4, 5, 6, 7, 8, 9, 10, 11, 12, 13], 1)
         return {"op": "construct", "spec": spec, "forms": forms, "out": out(w)}
 
     def run(w, s):
@@ -1000,18 +1000,24 @@ def _align():
 REGISTRY["align"].sources16 = lambda w, s: [s["a"], s["b"]] + s.get("others", [])
 
 
-@defop("broadcast_arrays", "join", weight=0.5)
+@defop("broadcast_arrays", "join", prop16="keep", weight=0.5)
 def _broadcast_arrays():
     def gen(w, rng):
         ids = w.arrays()
         if len(ids) < 2:
             return None
         a, b = rng.sample(ids, 2)
-        return {"a": a, "b": b, "out": out(w), "out2": out(w)}
+        st = {"a": a, "b": b, "out": out(w), "out2": out(w)}
+        if len(ids) >= 3 and rng.random() < 0.4:
+            st["others"] = [rng.choice([i for i in ids if i not in (a, b)])]
+        return st
 
     def run(w, s):
-        return w.da.broadcast_arrays(w.arr(s["a"]), w.arr(s["b"]))
+        return w.da.broadcast_arrays(*[w.arr(i) for i in [s["a"], s["b"]] + s.get("others", [])])
     return gen, run
+
+
+REGISTRY["broadcast_arrays"].sources16 = lambda w, s: [s["a"], s["b"]] + s.get("others", [])
 
 
 @defop("stack", "join", prop16="drop", weight=1.2)
@@ -1069,6 +1075,11 @@ def _concatenate():
             st["b"] = None
         elif r < 0.3:
             st["n"] = 3
+        elif r < 0.5:
+            # three distinct chunks: the array, a shifted copy of it, and the array once more shifted, in any order
+            st["n"] = 3
+            st["b"] = None
+            st["chunks"] = rng.sample([0, 1, 2], 3)
         if rng.random() < 0.3:
             st["tuple"] = True
         return st
@@ -1076,13 +1087,54 @@ def _concatenate():
     def run(w, s):
         kw = {"sort": True} if s.get("sort") else {}
         arrs = [w.arr(s["a"])]
-        if s.get("n", 2) >= 2:
+        if s.get("chunks"):
+            a = arrs[0]
+            labs = plain_labels(a.axes[s["axis"]])
+            if not labs:
+                raise Skip("labels")
+            shifted = lambda k: [(x + "_%d" % k) if isinstance(x, str) else x + 100 * k for x in labs]
+            made = [a, a.set_axis(V.label_array(shifted(1)), axis=s["axis"], inplace=False),
+                    a.set_axis(V.label_array(shifted(2)), axis=s["axis"], inplace=False)]
+            arrs = [made[i] for i in s["chunks"]]
+        elif s.get("n", 2) >= 2:
             arrs.append(w.arr(s["b"]))
-        if s.get("n", 2) == 3:
+        if s.get("n", 2) == 3 and not s.get("chunks"):
             arrs.append(w.arr(s["a"]))
         if s.get("tuple"):
             arrs = tuple(arrs)
         return keeps_list(w, "concatenate", arrs, lambda: w.da.concatenate(arrs, axis=s["axis"], align=s["align"], **kw))
+    return gen, run
+
+
+@defop("int_meets_float", "join", weight=0.4)
+def _int_meets_float():
+    """The array meets a copy of itself whose integer labels are the same numbers as floats (3 and 3.0 are one label)."""
+    def gen(w, rng):
+        a_id = pick_arr(w, rng, lambda a: a.ndim > 0 and a.dtype.kind in "fi")
+        if a_id is None:
+            return None
+        a = w.arr(a_id)
+        ints = [d for d in a.dims if (plain_labels(a.axes[d]) or [None]) and all(isinstance(x, int) for x in (plain_labels(a.axes[d]) or [None]))]
+        if not ints:
+            return None
+        return {"a": a_id, "how": rng.choice(["add", "align", "concat", "concat"]), "axis": rng.choice(list(a.dims)), "out": out(w)}
+
+    def run(w, s):
+        a = w.arr(s["a"])
+        f = a.copy()
+        for d in a.dims:
+            labs = plain_labels(a.axes[d])
+            if labs and all(isinstance(x, int) for x in labs):
+                f.set_axis(np.array(labs, dtype=float), axis=d)
+        if s["how"] == "add":
+            return a + f
+        if s["how"] == "align":
+            return w.da.align([a, f])[0]
+        labs = plain_labels(f.axes[s["axis"]])
+        if not labs:
+            raise Skip("labels")
+        f.set_axis(V.label_array([(x + "_1") if isinstance(x, str) else x + 100 for x in labs]), axis=s["axis"])
+        return w.da.concatenate([a, f], axis=s["axis"])
     return gen, run
 
 
@@ -1262,12 +1314,20 @@ def _put_copy():
             return None
         a = w.arr(a_id)
         idx, _ = _gen_index_tuple(w, rng, a, True)
-        return {"a": a_id, "idx": idx, "value": rng.choice([7, -5, 0.5]), "cast": rng.random() < 0.5, "out": out(w)}
+        st = {"a": a_id, "idx": idx, "value": rng.choice([7, -5, 0.5]), "cast": rng.random() < 0.5, "out": out(w)}
+        if a.ndim >= 1 and rng.random() < 0.25:
+            # a whole-array index with a block that must be broadcast along the leading dimensions
+            st["idx"] = [] if rng.random() < 0.5 else [{"k": "all"}]
+            st["value"] = {"row": rng.choice([7, 0.5])}
+        return st
 
     def run(w, s):
         a = w.arr(s["a"])
         idx = tuple(dec_index(e) for e in s["idx"])
-        return a.put(idx, s["value"], indexing="position", inplace=False, cast=s["cast"])
+        value = s["value"]
+        if isinstance(value, dict):
+            value = np.arange(a.shape[-1]) * 1.0 + value["row"] if isinstance(value["row"], float) else np.arange(a.shape[-1]) + value["row"]
+        return a.put(idx, value, indexing="position", inplace=False, cast=s["cast"])
     return gen, run
 
 
